@@ -27,7 +27,7 @@ Judge(k) ==
      /\ (IsProposal(k) /\ ln(k).res = "ok") =>
           /\ Report(k, "C18.InstallsExactly", ln(k).installed)
           /\ Report(k, "C18.UsableActive", ln(k).probe[Touched(k)].status = "Active")
-          /\ Report(k, "C18.UsableProof", ln(k).probe[Touched(k)].verify = "ok")
+          /\ Report(k, "C18.UsableProof", ln(k).args.ct = "valid" => ln(k).probe[Touched(k)].verify = "ok")   \* (a state root governance chose differently proves nothing of the counterparty)
           /\ Report(k, "C18.UsableUpdate", ln(k).probe[Touched(k)].update = "ok")
           /\ Report(k, "C18.CreateOnlyUnused", ln(k).ev = "Create" => clients[Touched(k)] = None)
           /\ Report(k, "C18.UpgradeKeepsType", ln(k).ev = "Upgrade" => (clients[Touched(k)] # None /\ clients'[Touched(k)].type = clients[Touched(k)].type))
